@@ -598,6 +598,25 @@ TWINS = {
         "@utype.parse(ignore_params=True)\ndef r1(x) -> Rec:\n    return dict(v=x)\n"
         "@utype.parse(ignore_params=True)\ndef r2(x) -> List[Rec]:\n    return [dict(v=x)]\n"
         "@utype.parse(ignore_result=True)\ndef r3(x: Rec) -> Rec:\n    return type(x).__name__\n"),
+    "shipped-generic-ref": (
+        [("class H(Schema):\n    xs: types.Array['B'] = Field(default_factory=list)\n", []),
+         ("class B(Schema):\n    v: int\n", ["H(xs=[{'v': '1'}])", "H(xs=[{'v': 'x'}])", "H()"])],
+        "class B(Schema):\n    v: int\nclass H(Schema):\n    xs: types.Array[B] = Field(default_factory=list)\n"),
+    "local-generic-inside-logical": (
+        [("def make():\n    class Loc(Schema):\n        v: int = 0\n        kids: types.NegativeInt | List['Loc'] = -1\n    return Loc\nLoc = make()\n",
+          ["Loc(kids=[{'v': '1'}])", "Loc(kids=-2)", "Loc(kids=[{'v': 'x'}])", "Loc(kids=[{'kids': [{'v': 2}]}])"])],
+        "class Loc(Schema):\n    v: int = 0\n    kids: types.NegativeInt | List['Loc'] = -1\n"),
+    "declared-init-assigns-forward-typed-field": (
+        [("class Holder(DataClass):\n    item: 'Late' = None\n    def __init__(self, raw):\n        self.item = raw\n", []),
+         ("class Late(Schema):\n    v: int\n", ["Holder({'v': '1'}).item", "Holder({'v': 'x'})"])],
+        "class Late(Schema):\n    v: int\nclass Holder(DataClass):\n    item: Late = None\n    def __init__(self, raw):\n        self.item = raw\n"),
+    "final-under-postponed-annotations": (
+        [("from __future__ import annotations\nclass F(Schema):\n    k: typing.Final[int] = 4\n    v: int = 0\n", ["F(v='1')", "F(k=5, v=2)"])],
+        "class F(Schema):\n    k: typing.Final[int] = 4\n    v: int = 0\n"),
+    "classvar-under-postponed-annotations": (
+        [("from __future__ import annotations\nclass F(Schema):\n    c: typing.ClassVar[int] = 3\n    v: int = 0\n",
+          ["F(v='1')", "F(c=5, v=2)", "sorted(F.__parser__.fields)", "F.c"])],
+        "class F(Schema):\n    c: typing.ClassVar[int] = 3\n    v: int = 0\n"),
     "subclass-adds-ref-to-pending-base": (
         [("class Base(Schema):\n    a: Optional['X'] = None\n"
           "class Sub(Base):\n    b: List['Y'] = Field(default_factory=list)\n", []),
